@@ -76,6 +76,14 @@ class Prop(PropBase):
             yield {"op": "concat", "cls": cls, "axis": axis, "L": L, "n": n, "rate": rate, "cf": cf, "bw": bw,
                    "al": al, "t0": t0, "cuts": cuts, "drop": drop, "group": group, "pert": pert}
 
+        # single-channel pieces whose channel bandwidth differs, joined along time or a trailing axis: the one label is the
+        # centre frequency, so only the explicit chan_bw test can refuse them (always present, every run)
+        for cls in ("RadioSignal", "IntensitySignal", "FullStokesSignal"):
+            for axis in ("time", "other"):
+                yield {"op": "concat", "cls": cls, "axis": axis, "L": 12, "n": 1, "rate": ("1", "kHz"), "cf": ("1.4", "GHz"),
+                       "bw": ("1", "MHz"), "al": "center", "t0": sigs.T0S[0], "cuts": [5] if axis == "time" else [1],
+                       "drop": [False, False], "group": None, "pert": ["cbw", rng.randrange(2), rng.choice([2.0, 0.5, 1.001])]}
+
     def _pert(self, rng, axis, k, cls):
         j = rng.randrange(k)
         radio = cls != "Signal"
@@ -93,7 +101,8 @@ class Prop(PropBase):
             if radio:
                 opts += [["cfshift", j, rng.choice([1, -1, 2])]] * 2
         if radio and not sigs.is_complex(cls):
-            opts += [["cbw", j, rng.choice([1.001, 0.999])]]
+            # channel bandwidth of one piece changed (labels of a single channel do not reveal it: weight it up)
+            opts += [["cbw", j, rng.choice([1.001, 0.999, 2.0, 0.5])]] * 3
         return rng.choice(opts)
 
     # --------------------------------------------------------------- real code
